@@ -30,6 +30,14 @@ def build_units(g):
     t.append(g.type_text("dead_letter.rs", S.top("dead_letter.rs", "enum", "DeadLetterReason"), "dead_letter.rs::DeadLetterReason"))
     units.append(("types", "\n".join(t)))
 
+    # ---------------- ActorResult accessors (actor_result.rs)
+    ar = S.impl_by("actor_result.rs", self_ty="ActorResult<T>", trait_head=None)
+    u = [g.impl_text("actor_result.rs", ar, None, "actor_result.rs::ActorResult")]
+    fi = S.impl_by("actor_result.rs", trait_text="From<ActorResult<T>>")
+    u.append(g.impl_text("actor_result.rs", fi, ["from"], "actor_result.rs::From<ActorResult> for tuple", header="",
+                         lift={"from": ("from__ActorResult__tuple", impl_parts(fi.header_raw)["self_ty"])}, bare=True))
+    units.append(("actor_result", "\n".join(u)))
+
     # ---------------- payload dispatch (lib.rs)
     u = []
     tr = S.top("lib.rs", "trait", "PayloadHandler")
@@ -51,6 +59,15 @@ def build_units(g):
     u = [g.fn_text("lib.rs", S.top("lib.rs", "fn", n), "lib.rs::" + n)
          for n in ("set_default_mailbox_capacity", "spawn", "spawn_with_mailbox_capacity")]
     units.append(("spawn", "\n".join(u)))
+
+    # ---------------- deadlock detection (lib.rs)
+    if dd:
+        u = [g.type_text("lib.rs", S.top("lib.rs", "struct", "WaitForGuard"), "lib.rs::WaitForGuard")]
+        di = S.impl_by("lib.rs", trait_head="Drop", self_ty="WaitForGuard")
+        u.append(g.impl_text("lib.rs", di, ["drop"], "lib.rs::Drop for WaitForGuard", header="",
+                             lift={"drop": ("drop__WaitForGuard", "WaitForGuard")}, bare=True))
+        u.append(g.fn_text("lib.rs", S.top("lib.rs", "fn", "has_path"), "lib.rs::has_path"))
+        units.append(("deadlock_detection", "\n".join(u)))
 
     # ---------------- dead letters
     u = [g.fn_text("dead_letter.rs", S.top("dead_letter.rs", "fn", "record"), "dead_letter.rs::record")]
